@@ -121,6 +121,7 @@ struct PendingState {
 
 struct ActiveState {
     local_nonce: u32,
+    remote_nonce: u32,
     half_connection: half_connection::HalfConnection,
     timeout_time_ms: u64,
     disconnect_signal: Option<DisconnectMode>,
@@ -457,6 +458,7 @@ impl Client {
 
                     self.state = State::Active(ActiveState {
                         local_nonce: state.local_nonce,
+                        remote_nonce: frame.nonce,
                         half_connection,
                         // The server has just been heard from: the silence timeout counts from now
                         // (not from the creation of the client, however long the handshake took)
@@ -471,7 +473,13 @@ impl Client {
                 // encountered when our initial ACK was dropped - all that matters is that the
                 // server receives an ACK.
 
-                if frame.nonce_ack == state.local_nonce {
+                //
+                // The SYN+ACK must also carry the server nonce this connection was established
+                // with. If the server has meanwhile forgotten that handshake and started another
+                // one in response to a stale copy of our SYN, acknowledging the new nonce would
+                // make it set up a connection whose sequence numbers differ from ours.
+
+                if frame.nonce_ack == state.local_nonce && frame.nonce == state.remote_nonce {
                     let reply = frame::Frame::HandshakeAckFrame(frame::HandshakeAckFrame {
                         nonce_ack: frame.nonce,
                     });
